@@ -23,7 +23,7 @@ from vf.bounded.gen_pt import (build_pt, dense_oracle, canonical, shape_of, fill
 
 MODULE = "props.c13_bounded"
 inf, nan = math.inf, math.nan
-TOLS = [(0.0, 0.0), (1e-5, 1e-8), (0.0, 0.5)]
+TOLS = [(0.0, 0.0), (1e-5, 1e-8), (0.0, 0.5), (0.1, 0.0)]
 
 
 def depict_axis(a) -> str:
@@ -308,7 +308,9 @@ def gen_unit(unit: dict):
                     # tolerances: perturb one element just inside / just outside
                     for ti, (rt, at) in enumerate(TOLS):
                         yield {"op": "allclose", "t": t, "u": u, "rtol": rt, "atol": at, "_sc": "constructed-equal"}
-                        for factor in (0.5, 2.0):
+                        # a large rtol also gets perturbations inside the band where |t-u| <= rtol*|u| and
+                        # |t-u| > rtol*|t| disagree (torch.allclose scales by the SECOND operand)
+                        for factor in ((0.5, 2.0, 1.05, -0.95) if rt >= 0.01 else (0.5, 2.0)):
                             def d(x, rt=rt, at=at, factor=factor):
                                 tol = at + rt * abs(x)
                                 if tol == 0: return x + (0.0 if factor < 1 else max(abs(x), 1.0) * 2.0 ** -40)
@@ -317,7 +319,7 @@ def gen_unit(unit: dict):
                             for side2, mask2, nm2 in ((side, mask, nm), ("u", None, "any")):
                                 r2 = perturb(u if side2 == "u" else t, mask2, d, rng)
                                 if r2 is None: continue
-                                c = {"op": "allclose", "rtol": rt, "atol": at, "_sc": f"{'inside' if factor < 1 else 'outside'}-{nm2}"}
+                                c = {"op": "allclose", "rtol": rt, "atol": at, "_sc": f"{'inside' if abs(factor) < 1 else 'outside'}-{nm2}"}
                                 c["t"], c["u"] = (t, r2) if side2 == "u" else (r2, u)
                                 yield c
                                 break
@@ -521,7 +523,7 @@ def make_units(ctx: Ctx) -> List[dict]:
 
 
 TITLES = {"pairs": ("PatternedTensor.equal / allclose on pairs of patterns",
-                    "all well-typed ordered pairs of patterns of T over every shape with numel<=6, ndim<=2 (+6 three-dimensional, +2 zero-size shapes) x 3 of 8 default pairs (equal / different / -inf / inf) x scenarios {constructed-equal re-patterning, near-miss in overlap / t-only / u-only / default-backed position, random incl. NaN/inf, NaN-equal, bool} x (rtol,atol) in {(0,0),(1e-5,1e-8),(0,0.5)} with one element at 0.5x / 2x the tolerance"),
+                    "all well-typed ordered pairs of patterns of T over every shape with numel<=6, ndim<=2 (+6 three-dimensional, +2 zero-size shapes) x 3 of 8 default pairs (equal / different / -inf / inf) x scenarios {constructed-equal re-patterning, near-miss in overlap / t-only / u-only / default-backed position, random incl. NaN/inf, NaN-equal, bool} x (rtol,atol) in {(0,0),(1e-5,1e-8),(0,0.5),(0.1,0)} with one element at 0.5x / 2x the tolerance (and at 1.05x / -0.95x for rtol=0.1: the asymmetric band of isclose)"),
           "mismatch": ("equal / allclose on tensors of different shapes", "10 shape pairs (same numel or not) x every 3rd pattern pair, all-zero and random data"),
           "repr": ("equal / allclose vs representation (same object, clone, freshen, densified, default_to, T.T), shape mismatch, equal_default / allclose_default",
                    "every pattern of T of the shapes above x 2 of 6 defaults (incl. NaN) x data NaN-free / with specials, float64/float32/bool/int64; physical == default exactly, and one element at 0.5x / 2x the tolerance"),
